@@ -28,7 +28,16 @@ func c02Scenario(s shape, i int, after bool, extra int, r *vx.Rand) {
 	if after {
 		kind = hub.CrashAfter
 	}
-	g.AddFault(&hub.Fault{Kind: kind, Client: sr.a, N: i})
+	if extra == 4 {
+		// instead of dying, the caller's context of Commit ends at that request (not executed / executed, answer not read)
+		kind = hub.DropBefore
+		if after {
+			kind = hub.DropAfter
+		}
+		g.AddFault(&hub.Fault{Kind: kind, Client: sr.a, N: i, Cancel: sr.cancel})
+	} else {
+		g.AddFault(&hub.Fault{Kind: kind, Client: sr.a, N: i})
+	}
 	var side chan struct{}
 	if extra == 1 || extra == 2 {
 		side = make(chan struct{})
@@ -92,6 +101,8 @@ func runC02() {
 		nShapes = 2600
 	}
 	nShapes = scaled(nShapes)
+	// the directed async-commit recovery family (profile full): both arrival orders of the CheckSecondaryLocks answers
+	asyncRecoveryFamily(rnd.Fork(), 4)
 	for n := 0; n < nShapes; n++ {
 		r := rnd.Fork()
 		s := genShape(r)
@@ -105,11 +116,14 @@ func runC02() {
 				if run.Thorough() || n%4 == 0 {
 					extras = append(extras, 3)
 				}
+				if run.Thorough() || n%4 == 1 {
+					extras = append(extras, 4)
+				}
 				if run.Thorough() {
 					extras = append(extras, 1+r.Intn(2))
 				}
 				for _, extra := range extras {
-					c02Scenario(s, i, after, extra, r.Fork())
+					timed(fmt.Sprintf("c02-extra-%d", extra), func() { c02Scenario(s, i, after, extra, r.Fork()) })
 					if extra != 0 {
 						rec.Count(fmt.Sprintf("c02:extra-%d", extra))
 					}
@@ -121,8 +135,12 @@ func runC02() {
 		if run.Thorough() {
 			nHist = 1
 		}
+		if !run.Thorough() || n%3 == 0 {
+			timed("slow-owner", func() { slowOwnerScenario(r.Fork()) })
+			rec.Count("c02:family:slow-owner")
+		}
 		for i := 0; i < nHist; i++ {
-			historyScenario(r.Fork())
+			timed("history", func() { historyScenario(r.Fork()) })
 			rec.Count("c02:family:history")
 		}
 	}
